@@ -16,17 +16,18 @@ import os
 import vlib
 
 LEVEL = "model_checking"
-GRID_Q = {"a": ["0.5", "0.85", "0.95", "1"], "l": ["100", "10", "0.5", "0"], "s": ["5000", "300", "10", "0"], "k": [0, 10, 200]}
-GRID_T = {"a": ["0.5", "0.8", "0.85", "0.9", "0.95", "0.99", "1"],
-          "l": ["100", "30", "10", "2", "1", "0.5", "0.1", "0.01", "0"],
-          "s": ["5000", "1200", "300", "60", "10", "1", "0"], "k": [0, 1, 10, 50, 200]}
+# grid sizes must match NA/NL/NS/NK of specs/Selector_lat(q).cfg and Trace_Selector(_q).cfg
+GRID_Q = {"a": ["0.5", "0.9", "1"], "l": ["100", "1", "0.01"], "s": ["5000", "60", "0"], "k": [0, 50]}
+GRID_T = {"a": ["0.5", "0.85", "0.95", "1"], "l": ["100", "10", "1", "0.1", "0"], "s": ["5000", "300", "10", "0"], "k": [0, 10, 200]}
 SIGS = {"invariant:ConfFilter": "candidates-kept-differ-from-all-minus-ignored-minus-nodata",
         "invariant:ConfInterval": "pick-violates-interval-rule",
         "invariant:ConfDraw": "reported-RNGValue-is-not-u-times-total",
         "invariant:ObsValid": "pick-outside-eligible-candidates",
         "invariant:ObsWeights": "weight-outside-minChance-1",
         "invariant:ObsLattice": "improvement-lowers-weight",
-        "invariant:ObsRange": "score-outside-minChance-1"}
+        "invariant:ObsRange": "score-not-a-finite-number-in-minChance-1",
+        "invariant:ObsFallback": "unusable-adaptive-window-changes-the-score",
+        "invariant:ObsRealDraw": "real-weight-draw-violates-interval-rule-or-weight-range"}
 
 
 def _drive(ctx, inp, tag):
@@ -55,7 +56,9 @@ def _bad(rows, res):
 def _sig(r, inv):
     s = SIGS.get(inv, inv)
     if r["ev"] == "lat":
-        return "%s@strategy=%d,adaptive=%d,coord=%s" % (s, r["strategy"], r["adaptive"], r["p"][4])
+        return "%s@lw=%s,sw=%s,coord=%s" % (s, r["lw"], r["sw"], r["p"][4])
+    if r["ev"] == "real":
+        return "%s@lw=%s,sw=%s" % (s, r["lw"], r["sw"])
     return s
 
 
@@ -67,7 +70,9 @@ def _single(inp, r):
         one["draws"] = max(inp["draws"], 50)
     else:
         one["sel"] = []
-        one["lat"] = [{"g": {"strategy": r["strategy"], "adaptive": r["adaptive"]}, "pairs": [r["p"]]}]
+        one["lat"] = [{"strategy": r["strategy"], "lw": r["lw"], "sw": r["sw"]}]
+        if r["ev"] == "lat":
+            one["pairs"] = [r["p"]]
     return one
 
 
@@ -78,33 +83,52 @@ def run(ctx):
     ctx.add_mc("Selector exhaustive", mc)
     sel = vlib.tlc_emit(ctx, "Selector", ctx.pick("Selector_emitq.cfg", "Selector_emit.cfg"), tag="Selector_emit", timeout=1800)["behaviours"]
     lat = vlib.tlc_emit(ctx, "Selector", ctx.pick("Selector_latq.cfg", "Selector_lat.cfg"), tag="Selector_lat", timeout=1800)["behaviours"]
+    pairs = [x["pairs"] for x in lat if "pairs" in x]
+    groups = [x for x in lat if "pairs" not in x]
+    if len(pairs) != 1 or not groups:
+        raise vlib.Infra("lattice emission incomplete: %d pair sets, %d groups" % (len(pairs), len(groups)))
     grid = dict(ctx.pick(GRID_Q, GRID_T))
     grid["others"] = 50
-    grid["bounds"] = [0.05, 3.0, 2.0, 200.0]
+    grid["bounds"] = [0.05, 3.0, 0.5, 2.0, 200.0, 30.0]   # latency p10, p90, degenerate value; sync p10, p90, degenerate value
     provs = ["p1", "p2", "p3"] if ctx.quick else ["p1", "p2", "p3", "p4"]
-    inp = {"seed": ctx.seed, "draws": ctx.pick(4, 6), "provs": provs, "sel": sel, "grid": grid, "lat": lat}
+    inp = {"seed": ctx.seed, "draws": ctx.pick(4, 6), "provs": provs, "sel": sel, "grid": grid, "pairs": pairs[0], "lat": groups,
+           "realDraws": ctx.pick(4, 8)}
     rows, res = _drive(ctx, inp, "all")
     nsel = sum(1 for r in rows if r["ev"] == "sel")
-    nlat = len(rows) - nsel
+    nreal = sum(1 for r in rows if r["ev"] == "real")
+    nlat = len(rows) - nsel - nreal
     picks = {r["pick"] for r in rows if r["ev"] == "sel"}
     cmps = {r["cmp"] for r in rows if r["ev"] == "lat"}
     multi = sum(1 for r in rows if r["ev"] == "sel" and len(r["scored"]) >= 2 and r["total8"] > 0)
-    if nsel == 0 or nlat == 0 or len(picks) < len(provs) + 1 or multi < 100 or 1 not in cmps:
-        raise vlib.Infra("vacuous: sel=%d lat=%d picks=%s multi=%d cmps=%s" % (nsel, nlat, sorted(picks), multi, sorted(cmps)))
+    wk = {r["lw"] for r in rows if r["ev"] == "lat"} | {r["sw"] for r in rows if r["ev"] == "lat"}
+    used_l = sum(1 for r in rows if r["ev"] == "lat" and r["lw"] in ("valid", "tight") and not r["eqOffL"])
+    used_s = sum(1 for r in rows if r["ev"] == "lat" and r["sw"] in ("valid", "tight") and not r["eqOffS"])
+    realpicks = {r["pick"] for r in rows if r["ev"] == "real"}
+    need_w = {"off", "valid", "tight", "equal", "reversed", "zero", "bothzero", "negative", "nan10", "nan90", "inf90", "neginf10"}
+    if (nsel == 0 or nlat == 0 or nreal == 0 or len(picks) < len(provs) + 1 or multi < 100 or 1 not in cmps or not need_w <= wk
+            or used_l == 0 or used_s == 0 or len(realpicks) < 2):
+        raise vlib.Infra("vacuous: sel=%d lat=%d real=%d picks=%s multi=%d cmps=%s windows=%s adaptive-used=%d/%d realpicks=%s" % (
+            nsel, nlat, nreal, sorted(picks), multi, sorted(cmps), sorted(wk), used_l, used_s, sorted(realpicks)))
     ctx.cov["evaluations"] = len(rows)
     ctx.cov["distinct_nontrivial"] = multi + sum(1 for r in rows if r["ev"] == "lat" and r["cmp"] == 1)
     ctx.cov["rule"] = ("sel: every (ignored subset, no-data subset, weight vector over KSet eighths) TLC emits x D seeded draws; non-trivial = "
                        ">= 2 scored candidates with positive total weight; lat: every (grid point, improved coordinate) x strategy x adaptive "
-                       "group; non-trivial = strictly larger score after the improvement")
+                       "window-kind group (latency and sync getters: off, valid, tight, equal, reversed, zero, bothzero, negative, NaN, Inf); non-trivial = "
+                       "strictly larger score after the improvement; real: draws with the group's real float weights")
     ctx.cov["draws"] = nsel
     ctx.cov["lattice_pairs"] = nlat
-    ctx.cov["traces_validated_against_impl"] += len(sel) + len(lat)
+    ctx.cov["real_weight_draws"] = nreal
+    ctx.cov["window_kinds"] = sorted(wk)
+    ctx.cov["lattice_lines_where_adaptive_window_changed_the_score"] = [used_l, used_s]
+    ctx.cov["traces_validated_against_impl"] += len(sel) + len(groups)
     ctx.sample(rows[nsel // 2])
-    ctx.sample(rows[nsel + nlat // 2])
+    ctx.sample(next(r for r in rows if r["ev"] == "lat" and r["lw"] == "equal"))
+    ctx.sample(next(r for r in rows if r["ev"] == "real"))
     ctx.assumptions += ["math/rand Float64 is uniform on [0,1): proportionality is exact relative to the draw, it is not re-measured statistically",
                         "weights are dyadic (k/8) in the interval-rule runs so float sums are exact; boundary draws (u*total exactly on a cumulative "
                         "sum) have measure zero",
-                        "lattice: finite grid of QoS values / stakes / strategies / adaptive bounds (float arithmetic evaluated by the real code only)",
+                        "lattice: finite grid of QoS values / stakes / strategies / adaptive window kinds incl. degenerate and invalid ones "
+                        "(float arithmetic evaluated by the real code only; finiteness logged as an explicit flag)",
                         "binding is at WeightedSelector level (CalculateProviderScores + SelectProviderWithStats + CalculateScore); "
                         "ProviderOptimizer.ChooseProvider is their composition"]
     b = _bad(rows, res)
